@@ -82,6 +82,6 @@ Proof. exact validated_script_never_unresolved. Qed.
 (* the pipeline as one function: text -> tokens -> tree -> validation, evaluation, optimization - here `max(length('abc'), 2) + 1`, accepted, 4 before and after optimize *)
 Example C10_pipeline_example :
   match run_script 1 [] [109;97;120;40;108;101;110;103;116;104;40;39;97;98;99;39;41;44;32;50;41;32;43;32;49]%N with
-  | SRan (Ok (VNum a)) None (Ok (VNum b)) => feq a (of_int 4) && feq b (of_int 4) | _ => false end = true.
+  | SRan (Ok (VNum a)) None (Ok (VNum b)) Generic.OOk (ELit _) => feq a (of_int 4) && feq b (of_int 4) | _ => false end = true.
 Proof. vm_compute. reflexivity. Qed.
 Print Assumptions C10_validated_script_never_unresolved.
